@@ -30,20 +30,36 @@ def build_roto_bin(ctx):
     return exe
 
 
+def model_available(ctx):
+    """The Lean driver speaks for the tree only if it was rebuilt from this run's
+    regenerated definitions.  After a failed extraction / Lean build the binary
+    on disk is stale or missing: the harness then compares the implementation
+    with the property's oracle alone (C19_MODEL=off) instead of dying or
+    quoting an outdated model."""
+    ok, _out = ctx.lake_build(["rotov-driver"])
+    return ok
+
+
 def correspondence(ctx, seed, tier, name=None):
     exe = build_roto_bin(ctx)
     if exe:
         os.environ["ROTO_BIN"] = exe
     else:
         os.environ.pop("ROTO_BIN", None)
+    os.environ["C19_MODEL"] = "on" if model_available(ctx) else "off"
     if ctx.build_harness("c19"):
-        ctx.harness("c19", ["run", seed, tier], timeout=3000, name=name)
+        ctx.harness("c19", ["run", seed, tier], timeout=6000, name=name)
 
 
 def search(ctx):
     # a broken theorem / extraction / correspondence: hunt for a concrete script
-    # or invocation on which the real runner / CLI violates the property
-    correspondence(ctx, ctx.seed + 7919, "thorough", name="search:c19")
+    # or invocation on which the real runner / CLI violates the property.  The
+    # boundary tables (test blocks at every module depth; 0, 1, 2, 255, 256, 257,
+    # 512 and 65536 rejecting blocks through the real `roto` binary) run first.
+    if ctx.impl_violations:
+        ctx.log("the correspondence run already holds a concrete failing input; no further search")
+        return
+    correspondence(ctx, ctx.seed + 7919, "search", name="search:c19")
 
 
 def run(ctx):
@@ -73,7 +89,7 @@ def replay(ctx, data):
         return 1
     # the driver must speak for the tree being replayed on
     ctx.extract(["testrunner"])
-    ctx.lake_build(["rotov-driver"])
+    os.environ["C19_MODEL"] = "on" if model_available(ctx) else "off"
     exe = build_roto_bin(ctx)
     if exe:
         os.environ["ROTO_BIN"] = exe
